@@ -45,10 +45,12 @@ struct Recorder {
     op_index: usize,
     op_kind: String,
     snaps: Vec<Snap>,
+    /// files (relative path) whose last write has not been followed by a sync yet; the flag follows the file through renames
+    unsynced: std::collections::BTreeSet<String>,
 }
 
 lazy_static::lazy_static! {
-    static ref REC: Mutex<Recorder> = Mutex::new(Recorder { dir: None, op_index: 0, op_kind: String::new(), snaps: vec![] });
+    static ref REC: Mutex<Recorder> = Mutex::new(Recorder { dir: None, op_index: 0, op_kind: String::new(), snaps: vec![], unsynced: Default::default() });
 }
 
 fn file_kind(rel: &str) -> &'static str {
@@ -84,6 +86,38 @@ pub fn install_fs_recorder() {
         );
         let tree = read_tree(&dir);
         let op_index = rec.op_index;
+        // which files hold bytes that no sync has made durable yet
+        if e.done {
+            let path_rel = e.path.strip_prefix(&dir).map(|p| p.to_string_lossy().to_string()).unwrap_or_default();
+            match e.op {
+                FsOp::Write => {
+                    rec.unsynced.insert(path_rel);
+                }
+                // the flag is cleared by the interposed fsync() below, i.e. by the system call really made, not by the position of the hook
+                FsOp::Sync => {}
+                FsOp::Rename => {
+                    if rec.unsynced.remove(&path_rel) {
+                        rec.unsynced.insert(rel.clone());
+                    }
+                }
+                FsOp::Remove => {
+                    rec.unsynced.remove(&rel);
+                }
+                FsOp::CreateTemp => {}
+            }
+        }
+        // a crash may lose (part of) the content of every file that was written and not synced, wherever it has been renamed to
+        let unsynced: Vec<String> = rec.unsynced.iter().filter(|f| tree.contains_key(*f)).cloned().collect();
+        for f in unsynced {
+            let full = tree[&f].clone();
+            for cut in [0usize, full.len() / 2] {
+                if cut < full.len() {
+                    let mut t = tree.clone();
+                    t.insert(f.clone(), full[..cut].to_vec());
+                    rec.snaps.push(Snap { tree: t, op_index, label: format!("{}/unsynced-lost", label) });
+                }
+            }
+        }
         // torn variants of the write that is about to happen
         if e.op == FsOp::Write && !e.done {
             let tmp_rel = e.path.strip_prefix(&dir).unwrap().to_string_lossy().to_string();
@@ -106,10 +140,60 @@ pub fn install_fs_recorder() {
     })));
 }
 
+// ---- link-time interposition of fsync(2): std::fs::File::sync_all / sync_data end up here
+extern "C" {
+    fn dlsym(handle: *mut std::ffi::c_void, symbol: *const std::ffi::c_char) -> *mut std::ffi::c_void;
+}
+
+static FSYNC_CALLS: std::sync::atomic::AtomicU64 = std::sync::atomic::AtomicU64::new(0);
+
+fn note_synced(fd: i32) {
+    FSYNC_CALLS.fetch_add(1, std::sync::atomic::Ordering::SeqCst);
+    if let Ok(p) = std::fs::read_link(format!("/proc/self/fd/{}", fd)) {
+        let mut rec = REC.lock().unwrap_or_else(|p| p.into_inner());
+        if let Some(dir) = rec.dir.clone() {
+            if let Ok(rel) = p.strip_prefix(&dir) {
+                let rel = rel.to_string_lossy().to_string();
+                rec.unsynced.remove(&rel);
+            }
+        }
+    }
+}
+
+unsafe fn real(name: &'static [u8]) -> extern "C" fn(i32) -> i32 {
+    const RTLD_NEXT: *mut std::ffi::c_void = -1isize as *mut std::ffi::c_void;
+    let f = dlsym(RTLD_NEXT, name.as_ptr() as *const std::ffi::c_char);
+    assert!(!f.is_null());
+    std::mem::transmute::<*mut std::ffi::c_void, extern "C" fn(i32) -> i32>(f)
+}
+
+#[no_mangle]
+pub unsafe extern "C" fn fsync(fd: i32) -> i32 {
+    let r = real(b"fsync\0")(fd);
+    if r == 0 {
+        note_synced(fd);
+    }
+    r
+}
+
+#[no_mangle]
+pub unsafe extern "C" fn fdatasync(fd: i32) -> i32 {
+    let r = real(b"fdatasync\0")(fd);
+    if r == 0 {
+        note_synced(fd);
+    }
+    r
+}
+
+pub fn fsync_calls_seen() -> u64 {
+    FSYNC_CALLS.load(std::sync::atomic::Ordering::SeqCst)
+}
+
 fn rec_start(dir: &PathBuf) {
     let mut rec = REC.lock().unwrap();
     rec.dir = Some(dir.clone());
     rec.snaps.clear();
+    rec.unsynced.clear();
     rec.op_index = 0;
     rec.op_kind = "open".into();
 }
@@ -554,9 +638,9 @@ impl Engine for CrashEngine {
         let p = plan(tier);
         Describe {
             level: "model_checking",
-            rule: "workloads = every sequence of exactly `depth` operations over {ingest A (table t), ingest B (tables t and u in one request), force_flush, restart} per configuration; crash states = the directory before and after EVERY primitive effect of the real FileBlobWriter (create temp, write, sync, rename, remove) observed through the file-effect hook, plus torn variants of the write in flight (1, 47, 48, 49, len/2, len-1 bytes); each distinct state is recovered by LocustDB::new, read, flushed, restarted and read again; every distinct directory state observed during that recovery is crashed and recovered a second time. A state is non-trivial if it lies strictly inside an operation (a temp file exists or a rename / remove is pending); distinct by directory content hash.".into(),
+            rule: "workloads = every sequence of exactly `depth` operations over {ingest A (table t), ingest B (tables t and u in one request), force_flush, restart} per configuration; crash states = the directory before and after EVERY primitive effect of the real FileBlobWriter (create temp, write, sync, rename, remove) observed through the file-effect hook, plus torn variants of the write in flight (1, 47, 48, 49, len/2, len-1 bytes), plus, for every file whose last write no fsync / fdatasync system call has followed yet (observed by link-time interposition of the two calls, not by hook position; the flag follows the file through renames), the variants in which its content is lost entirely or by half; each distinct state is recovered by LocustDB::new, read, flushed, restarted and read again; every distinct directory state observed during that recovery is crashed and recovered a second time. A state is non-trivial if it lies strictly inside an operation (a temp file exists or a rename / remove is pending); distinct by directory content hash.".into(),
             assumptions: vec![
-                "fault model of the property: effects become durable in program order (a crash keeps a prefix of the primitive effects); reordering by the file system (no directory fsync) is outside the model".into(),
+                "fault model of the property: effects become durable in program order (a crash keeps a prefix of the primitive effects), except that file content written and not yet synced may be lost; reordering of directory entries by the file system (no directory fsync) is outside the model".into(),
                 "workloads are sequential, so the effect order of one recorded run is the only order (io_threads=1); the order of tables inside one flush follows HashMap iteration of that run".into(),
                 "a recovery that does not return within the deadline counts as non-terminating".into(),
             ],
@@ -619,6 +703,9 @@ impl Engine for CrashEngine {
                 }
             }
         }
+        // the unsynced-content variants rest on seeing the fsync calls of the real writer
+        out.count("fsync_calls_observed", fsync_calls_seen());
+        assert!(g == 0 || fsync_calls_seen() > 0, "fsync interposition is not active: no fsync call was observed");
     }
 
     fn replay(&self, case: &Value) -> Option<Violation> {
